@@ -248,7 +248,7 @@ func (f *function) evaluate() (data string, changed bool, err error) {
 
 	var buf bytes.Buffer
 	b64 := base64.NewEncoder(base64.StdEncoding, &buf)
-	if err := pickle.NewEncoder(b64, pickle.PicklerFunc(envPickler)).Encode(f.function); err != nil {
+	if err := pickle.NewEncoder(b64, newEnvPickler()).Encode(f.function); err != nil {
 		return "", false, err
 	}
 	b64.Close()
@@ -304,10 +304,35 @@ func (f *function) load() error {
 // pickler.
 func functionEnv(f starlark.Callable) (starlark.Value, error) {
 	var buf bytes.Buffer
-	if err := pickle.NewEncoder(&buf, pickle.PicklerFunc(envPickler)).Encode(f); err != nil {
+	if err := pickle.NewEncoder(&buf, newEnvPickler()).Encode(f); err != nil {
 		return nil, err
 	}
 	return pickle.NewDecoder(&buf, pickle.UnpicklerFunc(envUnpickler)).Decode()
+}
+
+// newEnvPickler returns a pickler for one encoding of a function's environment.
+//
+// The encoder memoizes an object only once its arguments have been written, so the pickler
+// is asked about an object a second time only while that object is still being pickled: a
+// function that refers to itself, directly or through other functions or data. Such a
+// reference is pickled as a stand-in that names the function instead of recurring forever.
+func newEnvPickler() pickle.PicklerFunc {
+	inProgress := map[starlark.Value]bool{}
+	return func(x starlark.Value) (module, name string, args starlark.Tuple, err error) {
+		switch x := x.(type) {
+		case *starlark.Function:
+			if inProgress[x] {
+				return "dawn", "Recursive", starlark.Tuple{starlark.String(x.Name())}, nil
+			}
+			inProgress[x] = true
+		case *starlark.FunctionCode:
+			if inProgress[x] {
+				return "dawn", "Recursive", starlark.Tuple{starlark.String("code")}, nil
+			}
+			inProgress[x] = true
+		}
+		return envPickler(x)
+	}
 }
 
 // envPickler provides support for pickling functions and modules.
@@ -346,6 +371,11 @@ func envUnpickler(module, name string, args starlark.Tuple) (starlark.Value, err
 
 	switch name {
 	case "Target":
+		if len(args) != 1 {
+			return nil, fmt.Errorf("expcted 1 arg, got %v", len(args))
+		}
+		return args[0], nil
+	case "Recursive":
 		if len(args) != 1 {
 			return nil, fmt.Errorf("expcted 1 arg, got %v", len(args))
 		}
